@@ -19,6 +19,12 @@
     p4  STORE_SUBSCR into the platform dict that was looked up
     f4  STORE_SUBSCR into the front-end dict that was looked up
     act STORE_ATTR obj._cache = {}  (fresh dict), deact DELETE_ATTR obj._cache, acquire / test / release
+  `self._lock` is an RLock: the thread that holds it may `acquire` again from inside its block (a nested
+  `with p.oneshot()`, or `p.as_dict()` inside a block — as_dict is `acquire · test · … calls … · exit`);
+  every thread carries the stack of its enclosing open blocks (`true` = the activating one, `false` =
+  a no-op level); the nesting test is the SAME `hasattr(self, "_cache")` step on the front-end
+  attribute, `release` pops one level and frees the lock only at the outermost one. Another thread's
+  `acquire` is disabled while the lock is held (it waits).
   The wrapper is the repaired one (stores into the dict it looked up; Generated fact
   `storeReloads = false` is an obligation of `CCfg2.Good`): the only place an AttributeError can
   escape is a `cache_deactivate` that does not swallow it (`delGuard = false`).
@@ -49,6 +55,9 @@ structure CCfg2 where
   pmemo : Nat → Bool       -- the platform helper reading source g carries @memoize_when_activated
   storeKeep : Bool := false -- what-if: case 3 stores with `cache.setdefault(fun, ret)` WITHOUT rebinding `ret`
                             -- (first store wins, the caller still returns its own read); today's code: plain store
+  ownerOnly : Bool := false -- translator fact `cacheOwnerOnly`: cache_activate records the activating thread with the
+                            -- dict (`proc._cache = (get_ident(), {})`) and the wrapper consults / fills the cache only
+                            -- when called by that thread; any other thread takes case 2 (plain `fun(self)`)
 
 def CCfg2.srcOf (c : CCfg2) : Key → Nat
   | .fn f => c.fsrc f
@@ -83,6 +92,7 @@ inductive PC
 structure Thread where
   ph : Phase
   pc : PC
+  stack : List Bool := []         -- enclosing open blocks of this thread, innermost first (true = activating level)
   deriving DecidableEq, Repr
 
 inductive Choice
@@ -110,13 +120,14 @@ structure St where
   ep : Nat → Nat                        -- ghost: dict id → instant its block took the lock
   bstart : Nat                          -- ghost: instant of the last lock acquisition
   ents : Nat → Key → Option Entry       -- heap
+  creator : Nat → Nat                   -- dict id → thread that created it (stored WITH the dict when `ownerOnly`; ghost otherwise)
   lock : Option Nat
   thr : Nat → Thread
 
 def St.init : St :=
   { now := 0, ver := fun _ => 0, denied := fun _ => false, hist := fun _ _ => 0, attrF := none,
     attrP := none, nextId := 0, born := fun _ => 0, ep := fun _ => 0, bstart := 0,
-    ents := fun _ _ => none, lock := none, thr := fun _ => ⟨.out, .idle⟩ }
+    ents := fun _ _ => none, creator := fun _ => 0, lock := none, thr := fun _ => ⟨.out, .idle, []⟩ }
 
 def setPc (s : St) (tid : Nat) (pc : PC) : St :=
   { s with thr := fun i => if i = tid then { s.thr tid with pc := pc } else s.thr i }
@@ -124,13 +135,22 @@ def setPc (s : St) (tid : Nat) (pc : PC) : St :=
 def setPh (s : St) (tid : Nat) (ph : Phase) : St :=
   { s with thr := fun i => if i = tid then { s.thr tid with ph := ph } else s.thr i }
 
+/-- leave a nested level: back to phase `ph` of the enclosing block, whose enclosing levels are `rest` -/
+def popTo (s : St) (tid : Nat) (ph : Phase) (rest : List Bool) : St :=
+  { s with thr := fun i => if i = tid then { s.thr tid with ph := ph, stack := rest } else s.thr i }
+
+/-- re-entrant acquire from inside a block: the current level is pushed -/
+def pushTest (s : St) (tid : Nat) (b : Bool) : St :=
+  { s with thr := fun i => if i = tid then { s.thr tid with ph := .test, stack := b :: (s.thr tid).stack } else s.thr i }
+
 def attrOf (s : St) : Lvl → Option Nat
   | .front => s.attrF
   | .proc => s.attrP
 
-/-- `obj._cache = {}` on the object of level `l` -/
-def actSt (s : St) (l : Lvl) : St :=
+/-- `obj._cache = {}` on the object of level `l`, executed by thread `tid` -/
+def actSt (s : St) (tid : Nat) (l : Lvl) : St :=
   let s1 : St := { s with nextId := s.nextId + 1,
+                          creator := fun d => if d = s.nextId then tid else s.creator d,
                           born := fun d => if d = s.nextId then s.now else s.born d,
                           ep := fun d => if d = s.nextId then s.bstart else s.ep d,
                           ents := fun d => if d = s.nextId then (fun _ => none) else s.ents d }
@@ -162,7 +182,9 @@ def cstep (c : CCfg2) (s : St) (tid : Nat) : PC → Option St
   | .idle => none
   | .f0 f g cs =>
     match s.attrF with
-    | some d => some (setPc s tid (.f1 f g cs d s.now))
+    | some d =>
+      if c.ownerOnly && s.creator d != tid then some (setPc s tid (.p0 g cs none))   -- another thread's cache: bypass
+      else some (setPc s tid (.f1 f g cs d s.now))
     | none => some (setPc s tid (.p0 g cs none))                       -- AttributeError → case 2
   | .f1 f g cs d t0 =>
     match s.ents d (.fn f) with
@@ -171,7 +193,9 @@ def cstep (c : CCfg2) (s : St) (tid : Nat) : PC → Option St
   | .p0 g cs fd =>
     if c.pmemo g then
       match s.attrP with
-      | some pd => some (setPc s tid (.p1 g cs fd pd s.now))
+      | some pd =>
+        if c.ownerOnly && s.creator pd != tid then some (setPc s tid (.p2 g cs fd none))   -- bypass
+        else some (setPc s tid (.p1 g cs fd pd s.now))
       | none => some (setPc s tid (.p2 g cs fd none))
     else some (setPc s tid (.p2 g cs fd none))                          -- helper not decorated
   | .p1 g cs fd pd t0 =>
@@ -194,16 +218,19 @@ def cstep (c : CCfg2) (s : St) (tid : Nat) : PC → Option St
 def ostep (c : CCfg2) (s : St) (tid : Nat) : Phase → Option St
   | .test =>
     match s.attrF with
-    | some _ => some (setPh s tid .inNoop)                               -- nested: no-op block
+    | some _ => some (setPh s tid .inNoop)                               -- "already inside": no-op block
     | none => some (setPh s tid (.act c.actSeq))
-  | .act (l :: rest) => some (setPh (actSt s l) tid (.act rest))
+  | .act (l :: rest) => some (setPh (actSt s tid l) tid (.act rest))
   | .act [] => some (setPh s tid .inBlock)
   | .deact (l :: rest) =>
     match attrOf s l with
     | some _ => some (setPh (delAttr s l) tid (.deact rest))
     | none => some (setPh s tid (if c.delGuard then .deact rest else .oerr))
   | .deact [] => some (setPh s tid .release)
-  | .release => some (setPh { s with lock := none } tid .out)
+  | .release =>
+    match (s.thr tid).stack with
+    | [] => some (setPh { s with lock := none } tid .out)                -- outermost level: the RLock is freed
+    | b :: rest => some (popTo s tid (if b then .inBlock else .inNoop) rest)   -- back in the enclosing block
   | _ => none
 
 def callable : Phase → Bool
@@ -219,7 +246,10 @@ def tstep (c : CCfg2) (s : St) (tid : Nat) : Choice → Option St
     else none
   | .acquire =>
     if (s.thr tid).pc = .idle ∧ (s.thr tid).ph = .out ∧ s.lock = none
-    then some (setPh { s with lock := some tid, bstart := s.now } tid .test) else none
+    then some (setPh { s with lock := some tid, bstart := s.now } tid .test)
+    else if (s.thr tid).pc = .idle ∧ s.lock = some tid ∧ (s.thr tid).ph = .inBlock then some (pushTest s tid true)
+    else if (s.thr tid).pc = .idle ∧ s.lock = some tid ∧ (s.thr tid).ph = .inNoop then some (pushTest s tid false)
+    else none
   | .beginExit =>
     if (s.thr tid).pc = .idle then
       match (s.thr tid).ph with
